@@ -28,8 +28,9 @@ VERIF_DIR = os.path.dirname(os.path.dirname(os.path.abspath(__file__)))
 def load_property_module(pid):
     if VERIF_DIR not in sys.path:
         sys.path.insert(0, VERIF_DIR)
-    if '/repo' not in sys.path:
-        sys.path.insert(0, '/repo')
+    repo = os.environ.get('SYMNP_REPO', '/repo')
+    if repo not in sys.path:
+        sys.path.insert(0, repo)
     return importlib.import_module(f"harness.{pid}")
 
 
@@ -116,7 +117,7 @@ def _fidelity_witness(p, hh, rng):
                     if isinstance(e, core.SymBool):
                         vals.append(None)
                         continue
-                    if isinstance(e, core.SR) and any(v.startswith('ang!') for v in core.vars_of(e.t)):
+                    if isinstance(e, core.SR) and any(v.startswith(('ang!', 'c_opq_', 's_opq_')) for v in core.vars_of(e.t)):
                         vals.append(None)       # depends on the value symbol of an inverse-trig result (only loosely tied)
                         continue
                     val = solve.model_value(m, core.lift(e))
